@@ -61,6 +61,10 @@ FINDINGS = [
     ("C10-empty-body", r"^compile:ValueError:empty body on \w+$", "has_empty_form",
      "(for [x y] (require)): body forms that compile to no statements leave For/AsyncFor/If with an empty statement list; "
      "compile() raises ValueError (the try/finally case was fixed by c90ef71)"),
+    ("C10-bare-except-star-crash", r"^hy_compile:ProcessKilled:the compiler process was killed by signal N$", "bare_except_star",
+     "(try ... (except* [] ...)) compiles to TryStar with a handler without type -- not expressible in Python (`except*:` is a "
+     "syntax error), accepted by compile(), and CPython dies with SIGSEGV when the handler is reached; when the form is "
+     "evaluated at compile time, e.g. (do-mac (try (/ 1 0) (except* [] 1))), the compiler process itself is killed"),
     ("C10-toplevel-nonlocal-list", r"^compile:TypeError:required field \"lineno\" missing from stmt$", "has_nonlocal",
      "(+= c (nonlocal c)): ResolveOuterVars.visit_OuterVar returns a list, which hy_compile places into the module body "
      "when the nonlocal form sits in the top-level statement list; compile() raises TypeError"),
@@ -100,7 +104,8 @@ def corpus_first(chk, hy):
     if not os.path.exists(path):
         return
     for c in json.load(open(path)):
-        tree = hy.read_many(c["source"])
+        forms = list(hy.read_many(c["source"]))
+        tree = forms[0] if len(forms) == 1 else hy.models.Expression([hy.models.Symbol("do"), *forms])
         res = valid_oracle.classify(hy, tree)
         chk.count("corpus:" + res[0])
         chk.case(("corpus", c["source"]), nontrivial=True)
